@@ -393,8 +393,15 @@ pub fn run_writer(j: &Value, t: &mut Trace, run_id: usize) -> Option<(Vec<u8>, V
                         })
                         .collect::<Vec<_>>(),
                 ),
-                Ok(Err(e)) => json!(format!("err: {e}")),
-                Err(c) => json!(format!("panic: {} {}", c.msg, c.loc)),
+                // the finished file cannot even be walked frame by frame: that is data about the code, not a tool failure
+                Ok(Err(e)) => {
+                    filev["regen_failed"] = json!(format!("err: {e}"));
+                    json!([])
+                }
+                Err(c) => {
+                    filev["regen_failed"] = json!(format!("panic: {} {}", c.msg, c.loc));
+                    json!([])
+                }
             };
         }
     }
